@@ -427,6 +427,32 @@ func (n *node) readWal() []tup {
 	return ts
 }
 
+// tearWal truncates, in WAL directory b, the file that grew (or appeared) since the snapshot a so that only
+// a strict non-empty part of the new bytes remains.
+func tearWal(a, b string, rng *vh.Rng) bool {
+	ents, err := os.ReadDir(b)
+	if err != nil {
+		return false
+	}
+	for _, e := range ents {
+		if e.IsDir() {
+			continue
+		}
+		ib, err := e.Info()
+		if err != nil {
+			continue
+		}
+		var sa int64
+		if ia, err := os.Stat(filepath.Join(a, e.Name())); err == nil {
+			sa = ia.Size()
+		}
+		if grow := ib.Size() - sa; grow >= 2 {
+			return os.Truncate(filepath.Join(b, e.Name()), sa+1+int64(rng.Intn(int(grow-1)))) == nil
+		}
+	}
+	return false
+}
+
 func copyDir(src, dst string) error {
 	return filepath.Walk(src, func(p string, info os.FileInfo, err error) error {
 		if err != nil {
@@ -790,8 +816,42 @@ func runNodeHistory(e *env, idx int, steps int) {
 			}
 			used[sl] = append(used[sl], sig)
 			crash := "0"
-			if rng.Chance(1, 9) {
-				crash = []string{"A", "B", "B"}[rng.Intn(3)]
+			if rng.Chance(1, 7) {
+				crash = []string{"A", "B", "B", "T", "T"}[rng.Intn(5)]
+			}
+			if crash == "T" {
+				// the process dies in the middle of the WAL append: only part of the record reached the file
+				snapA := n.snapshot("A")
+				var snapB string
+				_ = n.broadcast(t, func() { snapB = n.snapshot("T") })
+				keep := n.disk
+				if snapB != "" {
+					n.disk = snapA
+					wa := n.walDir()
+					n.disk = snapB
+					wb := n.walDir()
+					n.disk = keep
+					if !tearWal(wa, wb, rng) {
+						snapB = ""
+					}
+				}
+				if snapB != "" {
+					n.disk = snapB
+					wal := n.readWal()
+					n.disk = keep
+					out.Line("bc %s crash=T => pub=- wal=%s", strings.ReplaceAll(t.String(), ".", " "), joinT(wal))
+					restart("crashT", snapB)
+					continue
+				}
+				// nothing was appended (the filter refused): an ordinary crash before the record, from the
+				// state before the request
+				out.Line("bc %s crash=A => pub=- wal=%s", strings.ReplaceAll(t.String(), ".", " "), func() string {
+					n.disk = snapA
+					defer func() { n.disk = keep }()
+					return joinT(n.readWal())
+				}())
+				restart("crashA", snapA)
+				continue
 			}
 			switch crash {
 			case "A":
